@@ -431,6 +431,30 @@ this program executes by construction require at least {}",
             );
         }
     }
+    // after all those interrupted runs on this thread and this loaded file, an uncancelled run
+    // must still behave exactly like the first one
+    if only_k.is_none() {
+        let flag = SimFlag::counting();
+        simrun::log_clear();
+        let again = simrun::execute(&file, &tree, &case.source, case.lazy, &fns, &vars, &flag);
+        let again_log = simrun::log_take();
+        st.executions += 1;
+        if again != cnt_out || again_log != cnt_log {
+            return (
+                st,
+                Some(Found {
+                    class: "state-left-by-cancelled-runs",
+                    k: p,
+                    detail: format!(
+                        "after {} cancelled runs the uncancelled run gives {} (first time: {})",
+                        p,
+                        again.brief(),
+                        cnt_out.brief()
+                    ),
+                }),
+            );
+        }
+    }
     (st, None)
 }
 
